@@ -26,12 +26,13 @@ type Cutter struct {
 	cutRd    int64 // cut once rd reaches this (-1 = never)
 	cutWr    int64
 	cut      bool
+	failWr   int64 // writes fail (without closing anything) once wr reaches this (-1 = never)
 	OnCut    func(dir string)
 	closeOne sync.Once
 }
 
 func NewCutter(c net.Conn) *Cutter {
-	return &Cutter{Conn: c, cutRd: -1, cutWr: -1}
+	return &Cutter{Conn: c, cutRd: -1, cutWr: -1, failWr: -1}
 }
 
 // Counts returns bytes read and written so far.
@@ -59,6 +60,14 @@ func (c *Cutter) CutAfterWrite(n int64) {
 	if n == 0 {
 		c.doCut("write")
 	}
+}
+
+// FailWritesAfter makes writes fail after n more bytes, leaving the connection open otherwise
+// (the trunk fails in one direction only).
+func (c *Cutter) FailWritesAfter(n int64) {
+	c.mu.Lock()
+	c.failWr = c.wr + n
+	c.mu.Unlock()
 }
 
 func (c *Cutter) doCut(dir string) {
@@ -109,6 +118,13 @@ func (c *Cutter) Write(b []byte) (int, error) {
 	short := false
 	if c.cutWr >= 0 && c.cutWr-c.wr < limit {
 		limit = c.cutWr - c.wr
+		short = true
+	}
+	if c.failWr >= 0 && c.failWr-c.wr < limit {
+		limit = c.failWr - c.wr
+		if limit < 0 {
+			limit = 0
+		}
 		short = true
 	}
 	c.mu.Unlock()
